@@ -38,14 +38,17 @@ impl<T> Uninit<T> {
 
 impl<T: IoBuf> IoBuf for Uninit<T> {
     fn as_init(&self) -> &[u8] {
-        self.0.as_init() // this is always &[] but we can't return &[] since the pointer will be different
+        // Empty until bytes are recorded through the view with `set_len`.
+        self.0.as_init()
     }
 }
 
 impl<T: IoBufMut> IoBufMut for Uninit<T> {
     fn as_uninit(&mut self) -> &mut [MaybeUninit<u8>] {
-        let len = (*self).buf_len();
-        &mut self.0.as_uninit()[len..]
+        // The full region of the view, including the bytes recorded through it
+        // so far (the contract of `IoBufMut::as_uninit`): they are the prefix
+        // that `as_init` reports.
+        self.0.as_uninit()
     }
 
     fn reserve(&mut self, len: usize) -> Result<(), ReserveError> {
